@@ -125,6 +125,25 @@ pub fn run_property(prop: &str, tier: &str, threads: usize, budget: &Budget, fin
         report.add_probe(stats.to_json("big-length", 0, true));
         return;
     }
+    if std::env::var("LSVERIF_HOSTED_PLAN").is_ok_and(|p| p == "sizes") {
+        // C06 hosted for a 32-bit target: there the size arithmetic is different code
+        // (saturating additions against an allocation limit of isize::MAX, no 56-bit limit)
+        report.rule = "size-argument probe hosted for this target: for every seed state and every state one constructor away from the empty pool, every live handle, every entry point (try_reserve / reserve / try_shrink_to / shrink_to / extend with a size hint as lower and as upper bound) and every n in SIZES (powers of two +-2 up to the word size, isize::MAX +-2, usize::MAX-2.., each minus the current length, len+-1, cap+-1); constructors with_capacity / try_with_capacity / collect with hint n; requests above 1 MiB are refused by the shim".into();
+        report.bounds.push(format!("target: {} bit, {} endian{}", usize::BITS, if cfg!(target_endian = "big") { "big" } else { "little" }, if std::env::var("LSVERIF_MIRI").is_ok() { " (executed by Miri)" } else { "" }));
+        // every part explores the (small) graph in full and then takes its share of the states
+        let quiet_env = Env { part: None, ..env };
+        let mut states = flatten(&bfs(&quiet_env, report, &wide, Roots::Seeds, 0, Props::default(), true), 0);
+        states.extend(flatten(&bfs(&quiet_env, report, &wide, Roots::Empty, 1, Props::default(), true), 1));
+        let stats = ProbeStats::default();
+        let cx = ProbeCtx { prof: &wide, findings, stats: &stats, heap_as: None, iso_as: None };
+        let mine: Vec<History> = states.into_iter().enumerate().filter(|(i, _)| env.part.is_none_or(|(k, n)| i % n == k)).map(|(_, h)| h).collect();
+        let (done, complete) = for_each_state(&mine, 1, budget, |h| probes::size_probe(&cx, h));
+        if env.part.is_none_or(|(k, _)| k == 0) {
+            probes::size_ctor_sweep(&cx);
+        }
+        report.add_probe(stats.to_json("size-arguments", done, complete));
+        return;
+    }
     if std::env::var("LSVERIF_MIRI").is_ok() && prop != "C20" {
         // Miri-hosted run of any property: the wide graph to the given depth with that
         // property's oracles (the interpreter is ~10^4 times slower than native code)
@@ -362,6 +381,13 @@ pub fn run_property(prop: &str, tier: &str, threads: usize, budget: &Budget, fin
             if !hosted || env.part.is_none_or(|(k, _)| k == 1) {
                 sweeps::c20_sweep(&scx, quick || hosted);
             }
+            if hosted {
+                // single operations on long texts (around 256 and 4 KiB bytes: lengths that need
+                // the second length byte, which only a byte-order or word-size mistake gets
+                // wrong) and on full inline strings, in every storage state, against String;
+                // the texts are dealt out to the parts
+                sweeps::c01_sweep_as(&scx, "C20", true, Some(env.part.unwrap_or((0, 1))), 1);
+            }
             report.add_probe(stats.to_json("niche-sweep", 0, true));
         }
         "C18" => {
@@ -531,7 +557,17 @@ pub fn reproduce(prop: &str, sig: &str, profile: &str, history: &[String], extra
             "C09" => sweeps::c09_sweep(&scx, quick, threads),
             "C12" => sweeps::c12_sweep(&scx, quick, threads),
             "C17" => sweeps::c17_zoo(&scx, quick, threads),
-            "C20" => sweeps::c20_sweep(&scx, quick),
+            "C20" => {
+                sweeps::c20_sweep(&scx, quick);
+                if std::env::var("LSVERIF_MIRI").is_ok() {
+                    // the hosted C20 run also deals the single-operation sweep out to its parts
+                    let part = std::env::var("LSVERIF_PART").ok().and_then(|s| {
+                        let (a, b) = s.split_once('/')?;
+                        Some((a.parse().ok()?, b.parse().ok()?))
+                    });
+                    sweeps::c01_sweep_as(&scx, "C20", true, Some(part.unwrap_or((0, 1))), 1);
+                }
+            }
             _ => return Err(format!("no sweep to replay for {prop}")),
         }
         if verbose {
